@@ -76,7 +76,7 @@ func renderTrace(tr []TraceOut) []string {
 
 func engineOnlyKind(k string) bool {
 	switch k {
-	case "race", "lock", "frozen-store", "global-write", "alloc":
+	case "race", "lock", "frozen-store", "global-write", "alloc", "alias":
 		return true
 	}
 	return false
